@@ -60,3 +60,35 @@ package bridgesync
 //@   modifies b.Amount
 //@   ensures[leaf-value] result == leafValue(b.LeafType, b.OriginNetwork, b.OriginAddress, b.DestinationNetwork, b.DestinationAddress, bigval(b.Amount), bytesOf(seq(b.Metadata), len(b.Metadata)))
 //@   ensures[unchanged] b.Amount == old(b.Amount)
+
+// Bridge.Hash, second behaviour: any bridge (nil amount, unconstrained amount): nothing is assumed about the value.
+//@ func (b *Bridge) Hash
+//@   behavior any
+//@   trusted
+//@   requires b != nil
+//@   modifies b.Amount
+
+// ---- block processing (C07: all-or-nothing; C14: fail-stop) and reorg (C04, C14)
+
+//@ func (p *processor) ProcessBlock
+//@   props C07 C14
+//@   requires p != nil && p.db != nil && p.log != nil && p.exitTree != nil && p.exitTree.Tree != nil && len(p.exitTree.zeroHashes) == 33
+//@   requires lastTx < heapTop
+//@   modifies heap
+//@   ensures[halted-refuses] old(p.halted) ==> result == sync.ErrInconsistentState && lastTx == old(lastTx) && p.halted
+//@   ensures[all-or-nothing] (!old(p.halted) && lastTx != old(lastTx)) ==> ((result == nil ==> txState(lastTx) == 1) && (result != nil ==> txState(lastTx) == 2))
+//@   ensures[no-transaction-no-success] (!old(p.halted) && lastTx == old(lastTx)) ==> result != nil
+//@   ensures[halts-only-with-inconsistency-error] p.halted != old(p.halted) ==> p.halted && result == sync.ErrInconsistentState
+//@   loop 0 invariant p.halted == old(p.halted) && !p.halted && p.log == old(p.log) && p.log != nil && p.exitTree == old(p.exitTree) && p.exitTree != nil && p.exitTree.Tree != nil && len(p.exitTree.zeroHashes) == 33
+//@   loop 0 invariant 0 <= rangeindex + 1 && rangeindex + 1 <= len(block.Events)
+//@   loop 0 invariant shouldRollback && tx != nil && lastTx == tx && tx != old(lastTx) && txState(tx) == 0
+
+//@ func (p *processor) Reorg
+//@   props C04 C14
+//@   requires p != nil && p.db != nil && p.log != nil && p.exitTree != nil && p.exitTree.Tree != nil
+//@   requires lastTx < heapTop
+//@   modifies heap
+//@   ensures[all-or-nothing] lastTx != old(lastTx) ==> ((result == nil ==> txState(lastTx) == 1) && (result != nil ==> txState(lastTx) == 2))
+//@   ensures[no-transaction-no-success] lastTx == old(lastTx) ==> result != nil
+//@   ensures[halt-cleared-only-by-a-committed-reorg] p.halted != old(p.halted) ==> (result == nil && !p.halted && lastTx != old(lastTx) && txState(lastTx) == 1)
+//@   ensures[failed-reorg-keeps-halt] result != nil ==> p.halted == old(p.halted)
